@@ -309,8 +309,8 @@ Lemma match_blank_main b w :
          Pair R_EOI n n []]]).
 Proof.
   intros Hb Hw L n. unfold fn_blank_tail. cbn [app].
-  destruct (blank_cases b Hb) as [->|[->|[->| ->]]];
-    (eapply runs_conv; [pegr|norm_len; bound|red_res; decide_eqb; cbv beta iota; unfold n, L; norm_len; repeat (first [reflexivity | lia | progress f_equal])]).
+  pose proof (blank_cases b Hb) as Hbc.
+  eapply runs_conv; [pegr|norm_len; bound|red_res; decide_eqb; cbv beta iota; unfold n, L; norm_len; repeat (first [reflexivity | lia | progress f_equal])].
 Qed.
 
 
@@ -345,4 +345,30 @@ Proof.
   cbn [length app nth_error].
   assert (Hb40 : N.eqb b 40 = false) by (destruct (blank_cases b Hb) as [->|[->|[->| ->]]]; reflexivity).
   rewrite Hb40. reflexivity.
+Qed.
+
+(* ---------- blank space inside the brackets of a singular query in a comparison ---------- *)
+(* $[?@[<blanks> selectors ]=...  : with a blank after '[' the bracket is not a singular segment (name_segment and
+   index_segment are compound-atomic: no skipping inside), so the comparable is `@` alone and no operator follows it;
+   read as a test, `@[ ... ]` is followed by '=' where only && || , ] may follow.  Whatever comes after the '='. *)
+Ltac sb_hook :=
+  lazymatch goal with
+  | Hok : lbracket_ok (?b :: ?b0) ?s1 ?l ?bl |- Runs _ _ (ECall R_bracketed_selection) _ (91%N :: ?b :: _) _ _ =>
+      apply (lbracket_runs (b :: b0) s1 l bl _ _ Hok)
+  | |- Runs _ _ (ECall R_WHITESPACE) AAtomic _ _ _ => apply ws_fail; solve_not_ws
+  | |- Runs _ _ (ECall R_S) _ _ _ _ => apply S_none; solve_not_ws
+  end.
+Ltac peg_hook ::= sb_hook.
+Ltac solve_not_ws ::= solve [assumption | cbn [not_ws]; repeat split; lia | exact I].
+
+Theorem blank_in_singular_bracket_rejected b b0 s1 l blast rest :
+  blank_b b = true -> lbracket_ok (b :: b0) s1 l blast ->
+  parse_query (36%N :: 91%N :: 63%N :: 64%N :: lbracket_text (b :: b0) s1 l blast ++ 61%N :: rest) = PErr.
+Proof.
+  intros Hb Hok.
+  apply (main_fails_rejected _ (600 + 2 * length (lbracket_text (b :: b0) s1 l blast))).
+  2:{ unfold parse_fuel. cbn [length]. rewrite app_length. cbn [length]. lia. }
+  unfold lbracket_text. cbn [app].
+  pose proof (blank_cases b Hb) as Hbc.
+  eapply runs_conv; [pegr|unfold lbracket_text; norm_len; bound|red_res; reflexivity].
 Qed.
